@@ -143,7 +143,7 @@ AVerifyTs(pert, tau) ==       \* tau = -1 : no timeout
 
 AReset == phase = "judged" /\ phase' = "idle" /\ ses' = NoSes /\ clock' = T0 /\ last' = Quiet
 
-Delays == {0} \cup UNION {{t - 1, t, t + 1, 100 * t + 7} : t \in Taus \ {-1, 0}}
+Delays == {0} \cup UNION {{t - 1, t, t + 1, 100 * t + 7} : t \in {x \in Taus \ {-1, 0} : x < 1000000}}
 
 Next ==
   \/ (phase = "idle" /\ \E k \in NZKeys, s \in Schemes, mr \in MsgRs, yk \in YKinds, pert \in Perts : APok(k, s, mr, yk, pert))
